@@ -118,7 +118,8 @@ def c06_witness(res):
 CLASS_WITNESSES = {
     "C06": [("F-C06-blank-line-inside-statement", "x = a\n\n + b\nf(a\n\n)\n", ["--idem"])],
     "C10": [("F-C10-blank-line-inside-statement", "x = a\n\n + b\n", ["--trace"])],
-    "C03": [("F-C03-name-key-trailing-comment", "local t = { y --[[c]] = 2 }\n", ["--trace"])],
+    "C03": [("F-C03-name-key-trailing-comment", "local t = { y --[[c]] = 2 }\n", ["--trace"]),
+            ("F-C03-line-comments-on-both-sides-of-a-comma", "foo(\n    a -- c1\n    , -- c2\n    b\n)\n", ["--trace"])],
 }
 def class_witnesses(res, prop, judge):
     bad = []
